@@ -51,6 +51,10 @@ def gen_cases(tier, seed):
             for code in (0, 23, 8, 1, 4, 26, 22, 20, 24):
                 for payload in (b'\x3e\x00', b'', bytes(range(40))):
                     yield Case(1603, [opened, legacy, code], [payload], 'BaseConnection.send')
+    # the same property on the library's own QueueConnection: whatever is queued when the call starts (also zero-length frames, also
+    # several of them) is flushed, so a call that gets no fresh reply times out exactly as on a fresh client
+    for k, stale in enumerate(STALE_QUEUES):
+        yield Case(5016, [k], list(stale), 'real QueueConnection with stale frames queued')
     yield Case(5015, [0], [], 'client context manager, normal exit')
     yield Case(5015, [1], [], 'client context manager, exit by exception')
     yield Case(5015, [0, 1], [], 'client context manager, link dropped inside, normal exit')
@@ -135,7 +139,52 @@ def base_send(opened, legacy, code, payload):
     return [len(written)] + [x for w in written for x in enc_bytes(w)] + [err]
 
 
+STALE_QUEUES = [[b'\x7e\x00'], [b''], [b'', b'\x7e\x00'], [b'\x7e\x00', b'', b'\x7e\x00'], [b'\x7f\x3e\x22', b'\x7e\x00', b''], [b'', b'', b'\x7e\x00'],
+                [b'\x7e\x00'] * 5, [b'\x50\x03\x00\x32\x01\xf4', b'', b'\x7f\x3e\x78', b'\x7e\x00']]
+
+
+def real_queue(stale):
+    """-> list of problems: tester_present() on a Client over the real QueueConnection, with `stale` queued before the call and no fresh
+    reply (must time out), then with a fresh reply put after the request went out (must be delivered)"""
+    import threading
+    import udsoncan.client as uc
+    from udsoncan.connections import QueueConnection
+    from udsoncan.exceptions import TimeoutException
+    import time as real_time
+    saved = uc.time
+    uc.time = real_time          # the virtual clock of the other cases does not drive a real queue
+    problems = []
+    try:
+        for fresh in (False, True):
+            conn = QueueConnection(name='verif')
+            conn.open()
+            client = uc.Client(conn, config={'request_timeout': 0.15, 'p2_timeout': 0.1, 'p2_star_timeout': 0.1})
+            for f in stale:
+                conn.fromuserqueue.put(f)
+            if fresh:
+                def answer():
+                    conn.touserqueue.get(timeout=2)
+                    conn.fromuserqueue.put(b'\x7e\x00')
+                th = threading.Thread(target=answer, daemon=True)
+                th.start()
+            try:
+                r = client.tester_present()
+                if not fresh:
+                    problems.append('a frame queued before the call was taken for the answer (%r)' % (None if r is None else r.original_payload))
+            except TimeoutException:
+                if fresh:
+                    problems.append('the fresh reply was not delivered')
+            except Exception as e:
+                problems.append('%s instead of %s' % (type(e).__name__, 'the reply' if fresh else 'a timeout'))
+            conn.close()
+    finally:
+        uc.time = saved
+    return problems
+
+
 def impl(c):
+    if c.entry == 5016:
+        return [len(real_queue(list(c.blobs)))]
     if c.entry == 1603:
         return base_send(c.ints[0], c.ints[1], c.ints[2], c.blobs[0])
     if c.entry == 5015:
@@ -148,6 +197,10 @@ def norm_events(evs, t0):
 
 
 def oracle(c, r):
+    if c.entry == 5016:
+        if r != [0]:
+            return ('stale-frame-real-queue', '; '.join(real_queue(list(c.blobs))) or 'not reproduced on a second run')
+        return None
     if c.entry == 5015:
         if r != [1, 1, 1, 0]:
             return ('ctx-close', 'with Client(...) : open calls, close calls, open inside, open after = %r' % r)
@@ -241,7 +294,7 @@ def oracle(c, r):
 
 
 def nontrivial(c, r):
-    if c.entry in (5015, 1603):
+    if c.entry in (5015, 5016, 1603):
         return True
     prev_failed = False
     for o in cl.case_ops(c)[1]:
